@@ -1,8 +1,212 @@
-(** Property C04 — statements only; proofs are in C04/VecProofs.v *)
-From Coq Require Import NArith List Bool.
-From LibaV Require Import C04.VecDefs C04.VecProofs.
+(** Property C04 — "Vector and fixed buffer behave as an indexable sequence under any history".
+    Statements only; every proof is [exact <lemma of C04/*Proofs.v>].  The model (C04/VecDefs.v) is
+    the code WITH the proposed fixes C04-1..6; the statements about the unpatched guards are the
+    [..._refuted] theorems at the end.  Non-vacuity examples: C04/VecExamples.v.
+
+    Vocabulary (C04/VecSpec.v): [abs a] = the first [a_num a] slots; [arr_inv] = siz >= 1,
+    num <= mem, mem = number of slots really owned, byte size < 2^63, every slot has siz bytes;
+    [op_spec] = the abstract-sequence semantics of every operation (result value, returned slot
+    inside storage, element behind the returned pointer, destructor calls, capacity);
+    [hist_pre] = every store passes an array of < 2^63 elements and every buffer capacity request
+    is representable in bytes (nothing else is assumed about indices and counts, which range over
+    all of N and in particular over [0, 2^64)). *)
+From Coq Require Import NArith List Bool Sorting.Sorted Sorting.Permutation.
+From LibaV Require Import C04.VecDefs C04.VecSpec C04.SwapProofs C04.ArrProofs C04.SortProofs C04.VecProofs
+     C04.VecExamples.
+Import ListNotations.
 Local Open Scope N_scope.
 
-Theorem c04_slot_of_mul : forall siz i, 0 < siz -> slot_of siz (siz * i) = Ok i.
-Proof. exact slot_of_mul. Qed.
-Print Assumptions c04_slot_of_mul.
+(** * refinement, one operation, any state satisfying the invariant, any index / count *)
+Theorem vec_refines_seq :
+  forall cmp : elem -> elem -> comparison,
+    (forall a b c, le cmp a b -> le cmp b c -> le cmp a c) -> (forall a b, le cmp a b \/ le cmp b a) ->
+    forall h v o, vec_inv v -> op_pre KVec (a_siz (v_arr v)) o ->
+      exists h' v' r, vec_step cmp h v o = Ok (h', v', r) /\ vec_inv v'
+                      /\ step_post cmp KVec (v_arr v) o (v_arr v') r.
+Proof. exact vec_step_refines. Qed.
+Print Assumptions vec_refines_seq.
+
+Theorem buf_refines_seq :
+  forall cmp : elem -> elem -> comparison,
+    (forall a b c, le cmp a b -> le cmp b c -> le cmp a c) -> (forall a b, le cmp a b \/ le cmp b a) ->
+    forall h b o, buf_inv b -> op_pre KBuf (a_siz (b_arr b)) o ->
+      exists h' b' r, buf_step cmp h b o = Ok (h', b', r) /\ buf_inv b'
+                      /\ step_post cmp KBuf (b_arr b) o (b_arr b') r.
+Proof. exact buf_step_refines. Qed.
+Print Assumptions buf_refines_seq.
+
+(** * all finite histories (two vectors incl. a_vec_swap, one buffer, new/die): invariants
+      (count <= capacity, storage owned), no model error, every step meets its specification *)
+Theorem history_refines :
+  forall cmp : elem -> elem -> comparison,
+    (forall a b c, le cmp a b -> le cmp b c -> le cmp a c) -> (forall a b, le cmp a b \/ le cmp b a) ->
+    forall ops w, world_inv w -> hist_pre cmp w ops -> hist_post cmp w ops.
+Proof. exact history_ok. Qed.
+Print Assumptions history_refines.
+
+Theorem history_refines_from_init :
+  forall cmp : elem -> elem -> comparison,
+    (forall a b c, le cmp a b -> le cmp b c -> le cmp a c) -> (forall a b, le cmp a b \/ le cmp b a) ->
+    forall sched limit ops,
+      hist_pre cmp (init_world sched limit) ops -> hist_post cmp (init_world sched limit) ops.
+Proof. exact history_ok_init. Qed.
+Print Assumptions history_refines_from_init.
+
+Theorem run_never_out_of_bounds :
+  forall cmp : elem -> elem -> comparison,
+    (forall a b c, le cmp a b -> le cmp b c -> le cmp a c) -> (forall a b, le cmp a b \/ le cmp b a) ->
+    forall ops w, world_inv w -> hist_pre cmp w ops ->
+      Forall (fun r => o_err r = None) (snd (run cmp w ops)) /\ world_inv (fst (run cmp w ops)).
+Proof. exact run_no_error. Qed.
+Print Assumptions run_never_out_of_bounds.
+
+(** * every element pointer returned lies inside storage the container owns *)
+Theorem returned_pointer_inside_storage :
+  forall (cmp : elem -> elem -> comparison) k siz mem l o r d siz' mem' l' off c,
+      op_spec cmp k siz mem l o r d siz' mem' l' -> o <> OEnd -> r = RPtr (Some off) c ->
+      exists p, off = siz' * p /\ p < mem'.
+Proof. exact ret_ptr_inside. Qed.
+Print Assumptions returned_pointer_inside_storage.
+
+(** * a_swap: exchanges two slots; on the overlapping ranges of remove it rotates one element *)
+Theorem a_swap_rotates :
+  forall siz sl p m, 0 < siz -> Forall (elem_ok siz) sl -> p + m < nlen sl ->
+    sl_swap siz sl (siz * p) (siz * (p + 1)) (siz * m) = Ok (lrot (N.to_nat p) (N.to_nat m) sl).
+Proof. exact sl_swap_rot. Qed.
+Print Assumptions a_swap_rotates.
+
+Theorem a_swap_exchanges_adjacent :
+  forall siz sl j, 0 < siz -> Forall (elem_ok siz) sl -> j + 1 < nlen sl ->
+    sl_swap siz sl (siz * (j + 1)) (siz * j) siz = Ok (lswap (N.to_nat j) sl).
+Proof. exact sl_swap_adj'. Qed.
+Print Assumptions a_swap_exchanges_adjacent.
+
+(** * both implementations of remove (scratch slot / in-place rotation) agree, and removal returns
+      the removed element intact *)
+Theorem remove_paths_agree :
+  forall a1 a2 idx,
+    arr_inv a1 -> arr_inv a2 -> abs a1 = abs a2 -> abs a1 <> [] ->
+    a_num a1 < a_mem a1 -> a_num a2 = a_mem a2 ->
+    exists a1' o1 a2' o2,
+      arr_remove a1 idx = Ok (a1', Some o1) /\ arr_remove a2 idx = Ok (a2', Some o2)
+      /\ abs a1' = abs a2' /\ abs a1' = sp_remove (abs a1) idx
+      /\ content_at a1' o1 (a_mem a1') = Some (sp_removed (abs a1) idx)
+      /\ content_at a2' o2 (a_mem a2') = Some (sp_removed (abs a1) idx).
+Proof. exact remove_paths_agree_lemma. Qed.
+Print Assumptions remove_paths_agree.
+
+(** * sorted-insert variants (either implementation) on a sorted sequence: sorted, the new element
+      added, nothing lost *)
+Theorem sort_paths_agree :
+  forall cmp : elem -> elem -> comparison,
+    (forall a b c, le cmp a b -> le cmp b c -> le cmp a c) -> (forall a b, le cmp a b \/ le cmp b a) ->
+    forall a1 a2,
+      arr_inv a1 -> arr_inv a2 -> abs a1 = abs a2 -> a_num a1 < a_mem a1 -> a_num a2 = a_mem a2 ->
+      (sorted cmp (tl (abs a1)) ->
+       exists a1' a2', arr_sort_fore cmp a1 = Ok a1' /\ arr_sort_fore cmp a2 = Ok a2' /\ abs a1' = abs a2')
+      /\ (sorted cmp (removelast (abs a1)) ->
+          exists a1' a2', arr_sort_back cmp a1 = Ok a1' /\ arr_sort_back cmp a2 = Ok a2' /\ abs a1' = abs a2').
+Proof. exact sort_paths_agree_lemma. Qed.
+Print Assumptions sort_paths_agree.
+
+Theorem sort_fore_sorted :
+  forall cmp : elem -> elem -> comparison,
+    (forall a b c, le cmp a b -> le cmp b c -> le cmp a c) -> (forall a b, le cmp a b \/ le cmp b a) ->
+    forall a, arr_inv a -> sorted cmp (tl (abs a)) ->
+      exists a', arr_sort_fore cmp a = Ok a' /\ arr_inv a'
+                 /\ abs a' = sp_sort_fore cmp (abs a) /\ sorted cmp (abs a') /\ Permutation (abs a) (abs a').
+Proof. exact sort_fore_sorted_lemma. Qed.
+Print Assumptions sort_fore_sorted.
+
+Theorem sort_back_sorted :
+  forall cmp : elem -> elem -> comparison,
+    (forall a b c, le cmp a b -> le cmp b c -> le cmp a c) -> (forall a b, le cmp a b \/ le cmp b a) ->
+    forall a, arr_inv a -> sorted cmp (removelast (abs a)) ->
+      exists a', arr_sort_back cmp a = Ok a' /\ arr_inv a'
+                 /\ abs a' = sp_sort_back cmp (abs a) /\ sorted cmp (abs a') /\ Permutation (abs a) (abs a').
+Proof. exact sort_back_sorted_lemma. Qed.
+Print Assumptions sort_back_sorted.
+
+Theorem push_sort_sorted :
+  forall cmp : elem -> elem -> comparison,
+    (forall a b c, le cmp a b -> le cmp b c -> le cmp a c) -> (forall a b, le cmp a b \/ le cmp b a) ->
+    forall a key, arr_inv a -> a_num a < a_mem a -> sorted cmp (abs a) -> fit (a_siz a) key = key ->
+      exists a2 a3 off,
+        arr_push_sort cmp a key = Ok (a2, off) /\ put a2 off key = Ok a3 /\ arr_inv a3
+        /\ abs a3 = sp_push_sort cmp (abs a) key
+        /\ sorted cmp (abs a3) /\ Permutation (key :: abs a) (abs a3).
+Proof. exact push_sort_sorted_lemma. Qed.
+Print Assumptions push_sort_sorted.
+
+(** * the fixed buffer refuses exactly the operations that do not fit, and then changes nothing *)
+Theorem buf_refuses :
+  forall cmp : elem -> elem -> comparison,
+    (forall a b c, le cmp a b -> le cmp b c -> le cmp a c) -> (forall a b, le cmp a b \/ le cmp b a) ->
+    forall h b o need,
+      buf_inv b -> op_pre KBuf (a_siz (b_arr b)) o -> room_needed o = Some need ->
+      exists h' b' r, buf_step cmp h b o = Ok (h', b', r) /\ buf_inv b'
+        /\ (a_mem (b_arr b) < a_num (b_arr b) + need ->
+            refusal o (o_ret r) /\ abs (b_arr b') = abs (b_arr b) /\ a_mem (b_arr b') = a_mem (b_arr b))
+        /\ (a_num (b_arr b) + need <= a_mem (b_arr b) ->
+            ~ refusal o (o_ret r) /\ nlen (abs (b_arr b')) = nlen (abs (b_arr b)) + need).
+Proof. exact buf_refuses_lemma. Qed.
+Print Assumptions buf_refuses.
+
+(** * the vector's growth step never wraps, never loops, and keeps the contents *)
+Theorem vec_growth :
+  forall h v mem, vec_inv v ->
+    exists h' v' rc ev, vec_setm h v mem = Ok (h', v', rc, ev)
+      /\ ((rc = A_SUCCESS /\ vec_inv v' /\ mem <= a_mem (v_arr v')
+           /\ a_mem (v_arr v) <= a_mem (v_arr v')
+           /\ a_siz (v_arr v') = a_siz (v_arr v) /\ a_num (v_arr v') = a_num (v_arr v)
+           /\ abs (v_arr v') = abs (v_arr v))
+          \/ (rc = A_OMEMORY /\ v' = v /\ a_mem (v_arr v) < mem)).
+Proof. exact vec_setm_spec. Qed.
+Print Assumptions vec_growth.
+
+(** * trusted-model sanity: the insertion sort standing for qsort yields a sorted permutation; the
+      harness comparator (memcmp) is a total order whose equivalence is identity *)
+Theorem qsort_model_sorted_permutation :
+  forall cmp : elem -> elem -> comparison,
+    (forall a b c, le cmp a b -> le cmp b c -> le cmp a c) -> (forall a b, le cmp a b \/ le cmp b a) ->
+    forall l, sorted cmp (isort cmp l) /\ Permutation l (isort cmp l).
+Proof. exact isort_sorted_perm. Qed.
+Print Assumptions qsort_model_sorted_permutation.
+
+Theorem harness_comparator_transitive :
+  forall a b c, le lex_cmp a b -> le lex_cmp b c -> le lex_cmp a c.
+Proof. exact lex_le_trans. Qed.
+Print Assumptions harness_comparator_transitive.
+
+Theorem harness_comparator_total : forall a b, le lex_cmp a b \/ le lex_cmp b a.
+Proof. exact lex_le_total. Qed.
+Print Assumptions harness_comparator_total.
+
+Theorem harness_comparator_equivalence_is_identity : forall a b, lex_cmp a b = Eq -> a = b.
+Proof. exact lex_cmp_eq. Qed.
+Print Assumptions harness_comparator_equivalence_is_identity.
+
+(** * the guards: the unpatched ones admit out-of-range arguments (defects C04-1, C04-2, witnesses
+      replayed on the real code by corpus/C04/defects.case), the patched ones are exact *)
+Theorem remove_guard_original_refuted :
+  exists idx num, idx < W /\ num < W /\ (wadd idx 1 <? num) = true /\ num <= idx.
+Proof. exact orig_remove_guard_refuted. Qed.
+Print Assumptions remove_guard_original_refuted.
+
+Theorem remove_guard_fixed :
+  forall idx num, num < W -> (negb (num =? 0) && (idx <? wsub num 1) = true <-> idx + 1 < num).
+Proof. exact fixed_remove_guard_spec. Qed.
+Print Assumptions remove_guard_fixed.
+
+Theorem erase_end_original_refuted :
+  exists idx cnt num, idx < W /\ cnt < W /\ num < W /\ idx < num
+                      /\ (wadd idx cnt <? num) = true /\ num < idx + cnt.
+Proof. exact orig_erase_end_refuted. Qed.
+Print Assumptions erase_end_original_refuted.
+
+Theorem erase_end_fixed :
+  forall idx cnt num, num < W ->
+    (if (idx <? num) && (cnt <? wsub num idx) then wadd idx cnt else num) = N.min (idx + cnt) (N.max idx num)
+    \/ num <= idx.
+Proof. exact fixed_erase_end_spec. Qed.
+Print Assumptions erase_end_fixed.
